@@ -391,6 +391,53 @@ def oracle_pipeline(ctx, docs):
                 if len(ctx.samples) < 6 and d.kind == "mutated" and d.name.startswith(("wrap", "decoy")):
                     ctx.sample(dict(doc=d.name, level=d.level, alg=d.alg, setting=st, policy=pol, outcome=got))
     set_policy("fail")
+    # ---- other configuration switches must not open the gap again: the attack shapes under each of them
+    attack = [d for d in docs if d.kind == "mutated" and d.alg == ALGS[main][0]
+              and d.name.startswith(("wrap", "decoy", "nest", "duplicate", "relocate", "random"))]
+    if ctx.quick:
+        attack = [d for i, d in enumerate(attack) if i % 3 == ctx.seed % 3]
+    for d in attack:
+        required = {"response": (True, False, False), "assertion": (False, True, False), "both": (True, True, False)}[d.level]
+        for label, sp in variant_sps(required):
+            for pol in (POLICIES if has_dup_ids(ET.fromstring(d.xml)) else ["fail"]):
+                set_policy(pol)
+                got = resp.observe(sp, d.xml)
+                acc = isinstance(got, list)
+                ctx.count("pipeline-variant:%s:%s" % (label, "accepted" if acc else "rejected"))
+                ctx.nontriv((d.name, d.level, d.alg, d.encrypted, label, pol))
+                want = base.get("obs")
+                if acc and (want is None or got[:5] != want[:5]):
+                    ctx.oracle_fail("forged-identity-accepted:%s:%s:%s:%s" % (label, d.level, "encrypted" if d.encrypted else "plain", d.name),
+                                    "'%s' of a %s-signed response accepted by an SP with %s (tool duplicate-ID policy %s) with identity %s (signed original: %s)"
+                                    % (d.name, d.level, label, pol, got[1:4], want and want[1:4]),
+                                    dict(unit="pipeline-variant", doc=d.name, level=d.level, alg=d.alg, encrypted=d.encrypted, variant=label,
+                                         setting=required, policy=pol, xml=d.xml))
+    set_policy("fail")
+
+
+_variants = {}
+
+
+def variant_sps(required):
+    if required not in _variants:
+        spd = {"want_response_signed": required[0], "want_assertions_signed": required[1]}
+        out = [("allow_unsolicited", env.make_sp(sp=dict(spd, allow_unsolicited=True))),
+               ("only_use_keys_in_metadata=False", env.make_sp(sp=dict(spd), only_use_keys_in_metadata=False)),
+               ("accepted_time_diff=60", env.make_sp(sp=dict(spd), accepted_time_diff=60)),
+               ("two-certificates-in-metadata", None)]
+        from props.c03 import idp_md
+        out[3] = ("two-certificates-in-metadata", env.make_sp(idp_md=[idp_md(env.IDP_ID, [("signing", ["other", "idp"])])], sp=dict(spd)))
+        if required[0]:
+            conf = env.sp_conf()
+            for kx in ("want_response_signed", "want_assertions_signed", "allow_unsolicited"):
+                conf["service"]["sp"].pop(kx, None)
+            conf["service"]["sp"]["want_assertions_signed"] = required[1]
+            from saml2_tophat.config import IdPConfig, SPConfig
+            from saml2_tophat.client import Saml2Client
+            conf["metadata"] = {"inline": [env.cached_md("idp", env.idp_conf(), IdPConfig)]}
+            out.append(("options-left-at-defaults", Saml2Client(config=SPConfig().load(copy.deepcopy(conf)))))
+        _variants[required] = out
+    return _variants[required]
 
 
 def unit_library_output(ctx):
